@@ -749,6 +749,54 @@ func runC07(c *Ctx) {
 				})
 			}
 		}
+		// … and the declared length never sizes how much of the body is read, unless the unknown-length value
+		// was told apart first (a comparison of ContentLength with -1 or 0 in that function)
+		isCLv := func(v ssa.Value) bool {
+			u, ok := v.(*ssa.UnOp)
+			if !ok || u.Op != token.MUL {
+				return false
+			}
+			nt, f, ok := fieldOf(u.X)
+			return ok && nt != nil && nt.Obj().Pkg() != nil && nt.Obj().Pkg().Path() == "net/http" && nt.Obj().Name() == "Request" && f == "ContentLength"
+		}
+		for _, rel := range []string{glyphCmd, "pkg/server", interpPkg} {
+			for _, fn := range c.srcFuncs(rel) {
+				k := 0
+				eachInstr(fn, func(_ *ssa.BasicBlock, _ int, ins ssa.Instruction) {
+					call, ok := ins.(*ssa.Call)
+					if !ok {
+						return
+					}
+					var size ssa.Value
+					switch callName(call) {
+					case "io.LimitReader", "io.CopyN":
+						size = call.Call.Args[len(call.Call.Args)-1]
+					case "net/http.MaxBytesReader":
+						size = call.Call.Args[2]
+					default:
+						return
+					}
+					if !derivesFrom(size, isCLv) {
+						return
+					}
+					n++
+					k++
+					guarded := false
+					eachInstr(fn, func(_ *ssa.BasicBlock, _ int, x ssa.Instruction) {
+						if bo, ok := x.(*ssa.BinOp); ok {
+							for _, pr := range [][2]ssa.Value{{bo.X, bo.Y}, {bo.Y, bo.X}} {
+								if isCLv(stripConv(pr[0])) {
+									if kv, ok := constInt(pr[1]); ok && (kv == 0 || kv == -1) {
+										guarded = true
+									}
+								}
+							}
+						}
+					})
+					c.ob("C07-R10", fnKey(fn)+"#declared-length-does-not-size-the-read-"+itoa(k), call.Pos(), guarded, "how much of the request body is read is taken from Request.ContentLength without telling the unknown-length value apart: for a chunked or streamed body the field is -1, the reader ends at once, the body counts as absent and the declared input type is applied to an empty object - a conforming request is refused (or, with optional fields only, its data silently dropped)")
+				})
+			}
+		}
 		c.Sites["C07-R10#ContentLength-comparisons"] = n
 		c.ob("C07-R10", glyphCmd+"#body-presence-not-a-ContentLength-sign-test", token.NoPos, true, "")
 	}
